@@ -47,9 +47,6 @@ Notation export_styled := (export_styled truthy esc).
 Notation styled_seg := (styled_seg truthy esc).
 Notation step := (step truthy esc html_rule html_link).
 Notation run := (run truthy esc html_rule html_link).
-Notation wf_seg_b := (wf_seg_b truthy).
-Notation wf_op_b := (wf_op_b truthy).
-Notation wf_hist_b := (wf_hist_b truthy).
 Notation html_seg_inline := (html_seg_inline truthy html_rule html_link).
 Notation html_code_inline := (html_code_inline truthy html_rule html_link).
 Notation html_seg_class := (html_seg_class truthy html_rule html_link).
@@ -153,20 +150,29 @@ Lemma op_out_not_output c o : is_output o = false -> op_out c o = None.
 Proof. destruct o; cbn; intros H; try discriminate; reflexivity. Qed.
 
 Section Visible.
-(* the hypothesis on the abstract ANSI wrapper: the scanner removes exactly the wrapper *)
-Hypothesis esc_visible : forall cs lw s t,
-  plain_b t = true -> vrun VGround (esc cs lw s t) = (VGround, t).
+(* the hypothesis on the abstract ANSI wrapper: it is transparent to the scanner -- whatever a text
+   shows when the scanner starts and ends at rest, the wrapped text shows the same and also ends at
+   rest (plain text shows itself; a complete control string shows nothing) *)
+Hypothesis esc_transparent : forall cs lw s t o,
+  vrun VGround t = (VGround, o) -> vrun VGround (esc cs lw s t) = (VGround, o).
+
+Lemma vrun_wf_txt g : wf_seg_b g = true -> vrun VGround (txt g) = (VGround, if ctl g then [] else txt g).
+Proof.
+  unfold wf_seg_b. destruct (ctl g); intros H; [apply vrun_invisible|apply vrun_plain]; exact H.
+Qed.
 
 Lemma vrun_render_seg c g : wf_seg_b g = true ->
   vrun VGround (render_seg c g) = (VGround, if ctl g then [] else txt g).
 Proof.
-  unfold SpecRecord.wf_seg_b, Record.render_seg. destruct (ctl g) eqn:Ec; intros H.
-  - apply andb_true_iff in H. destruct H as [H1 H2]. apply negb_true_iff in H1.
-    assert (Hp : vrun VGround (if negb (term c) && true then [] else txt g) = (VGround, [])).
-    { destruct (negb (term c) && true); [reflexivity|apply vrun_invisible; exact H2]. }
-    destruct (sty g) as [s|]; [|exact Hp]. cbn [truthy_o] in H1. rewrite H1. exact Hp.
-  - rewrite andb_false_r. destruct (sty g) as [s|]; [|apply vrun_plain; exact H].
-    destruct (truthy s); [apply esc_visible; exact H|apply vrun_plain; exact H].
+  intros H. pose proof (vrun_wf_txt g H) as Ht. unfold Record.render_seg.
+  destruct (render_control_test_first && negb (term c) && ctl g) eqn:E0.
+  - apply andb_true_iff in E0. destruct E0 as [_ Ec]. rewrite Ec. reflexivity.
+  - assert (Hp : vrun VGround (if negb (term c) && ctl g then [] else txt g)
+                 = (VGround, if ctl g then [] else txt g)).
+    { destruct (negb (term c) && ctl g) eqn:E; [|exact Ht].
+      apply andb_true_iff in E. destruct E as [_ Ec]. rewrite Ec. reflexivity. }
+    destruct (sty g) as [s|]; [|exact Hp].
+    destruct (truthy s); [apply esc_transparent; exact Ht|exact Hp].
 Qed.
 
 Lemma vrun_render_buffer c b : forallb wf_seg_b b = true ->
@@ -182,12 +188,9 @@ Qed.
 Lemma vrun_styled_seg g : wf_seg_b g = true ->
   vrun VGround (styled_seg g) = (VGround, if ctl g then [] else txt g).
 Proof.
-  unfold SpecRecord.wf_seg_b, Record.styled_seg. destruct (ctl g) eqn:Ec; intros H.
-  - apply andb_true_iff in H. destruct H as [H1 H2]. apply negb_true_iff in H1.
-    destruct (sty g) as [s|]; [|apply vrun_invisible; exact H2]. cbn [truthy_o] in H1. rewrite H1.
-    apply vrun_invisible; exact H2.
-  - destruct (sty g) as [s|]; [|apply vrun_plain; exact H].
-    destruct (truthy s); [apply esc_visible; exact H|apply vrun_plain; exact H].
+  intros H. pose proof (vrun_wf_txt g H) as Ht. unfold Record.styled_seg.
+  destruct (sty g) as [s|]; [|exact Ht].
+  destruct (truthy s); [apply esc_transparent; exact Ht|exact Ht].
 Qed.
 
 Lemma vrun_export_styled r : forallb wf_seg_b r = true ->
@@ -229,7 +232,7 @@ Lemma step_inv kc he c s o acc :
   let '(s1, e) := step kc he c s o in Inv (acc_next acc o e) s1.
 Proof.
   intros (Ha & Hb & Hr) Hwf. destruct (is_output o) eqn:Eo.
-  - rewrite (step_output kc he c s o Eo). unfold SpecRecord.wf_op_b in Hwf.
+  - rewrite (step_output kc he c s o Eo). unfold wf_op_b in Hwf.
     assert (Hc : is_clearing o = false) by (destruct o; try reflexivity; discriminate).
     assert (Hn : forall e, acc_next acc o e = acc ++ written e).
     { intros e. unfold acc_next. rewrite Hc. destruct o; try discriminate; rewrite ?app_nil_r; reflexivity. }
@@ -270,7 +273,7 @@ Lemma run_inv kc he c : forall h s acc,
   let '(s', es) := run kc he c s h in Inv (rendered_since_clear acc h es) s'.
 Proof.
   induction h as [|o h IH]; intros s acc HI Hwf; [exact HI|].
-  cbn [Record.run]. cbn [SpecRecord.wf_hist_b forallb] in Hwf. apply andb_true_iff in Hwf. destruct Hwf as [Ho Hh].
+  cbn [Record.run]. cbn [wf_hist_b forallb] in Hwf. apply andb_true_iff in Hwf. destruct Hwf as [Ho Hh].
   pose proof (step_inv kc he c s o acc HI Ho) as P.
   destruct (step kc he c s o) as [s1 e].
   pose proof (IH s1 (acc_next acc o e) P Hh) as Q.
